@@ -32,6 +32,7 @@ PROP_FILE = LEAN / 'BearVerif/Props/C17.lean'
 IMPL = 'harness.impl.c17conf'
 ENVS = ['True', 'False', 'None']
 ENVVAL = {'True': ['b', True], 'False': ['b', False], 'None': 'none'}
+VS_SPEC = {'same-normalised-args-different-object', 'differing-args-same-object'}
 SPECIAL = {'is_color', 'is_pep484_tower', 'hint_overrides', 'violation_type', 'violation_door_type',
            'violation_param_type', 'violation_return_type', 'warning_cls_on_decorator_exception'}
 
@@ -171,6 +172,8 @@ def corpus(W: World) -> list:
         [['new', None, [['is_check_pep557', T]]], ['new', None, [['is_pep557_fields', T]]], ['new', None, [['is_check_pep557', one]]]],
         [['new', None, [['warning_cls_on_decorator_exception', N]]], ['new', None, []], ['again', None, 0], ['again', None, 1]],
         [['new', None, [['is_pep484_tower', T], ['hint_overrides', some_fd(['fd', ['other', 0], 'absent', 0, True])]]]],
+        [['new', None, [['is_pep484_tower', T], ['hint_overrides', some_fd(['fd', 'absent', ['other', 1], 0, True])]]],
+         ['new', None, [['hint_overrides', some_fd(['fd', 'absent', ['other', 1], 0, True])]]]],
         [['new', None, [['is_pep484_tower', T], ['hint_overrides', some_fd(['fd', 'tower', 'absent', 0, True])]]],
          ['new', None, [['is_pep484_tower', T]]], ['again', None, 0]],
         [['new', None, [['hint_overrides', some_fd(['fd', 'absent', 'absent', 2, True])]]],
@@ -242,10 +245,11 @@ def gen_history(rng: random.Random, W: World, maxlen: int) -> list:
 # ---------------------------------------------------------------------------
 # running both sides
 # ---------------------------------------------------------------------------
-def run_real_batches(batches: list, names, uncleared_first: bool) -> list:
+def run_real_batches(batches: list, names, uncleared_first: bool, threads: bool = False, coverage: bool = False) -> list:
     """one fresh subprocess per batch (16 at a time); returns per batch the subprocess answer"""
     def one(b):
-        return subproc_json(IMPL, {'histories': b, 'names': names, 'uncleared_first': uncleared_first}, timeout=1200)
+        return subproc_json(IMPL, {'histories': b, 'names': names, 'uncleared_first': uncleared_first, 'threads': threads,
+                                   'coverage': coverage}, timeout=1200)
     with cf.ThreadPoolExecutor(max_workers=16) as ex:
         return list(ex.map(one, batches))
 
@@ -268,8 +272,10 @@ def run_model(W: World, hists: list, prefixes=None) -> list:
     lines = [model_line(W, h, prefixes[k] if prefixes else None) for k, h in enumerate(hists)]
     if not lines:
         return []
-    lean_driver(['(c17 ())'], 'C17')          # builds the driver once, before the threads
-    nchunk = max(1, min(8, len(lines) // 40))
+    from .. import common
+    if 'C17' not in common._DRIVER_BUILT:     # build the driver once, before the threads (what lean_driver would do)
+        common._DRIVER_BUILT['C17'] = common.lean_build(['BearVerif.Driver.C17', 'BearVerif.Core.Loop'])
+    nchunk = max(1, min(12, len(lines) // 40))
     chunks = [lines[i::nchunk] for i in range(nchunk)]
     with cf.ThreadPoolExecutor(max_workers=nchunk) as ex:
         outs = list(ex.map(lambda c: lean_driver(c, 'C17'), chunks))
@@ -364,14 +370,20 @@ def judge(W: World, h, real, model):
             continue
         if out != 'conf':
             continue
-        if r['obj'] != mobj[k]:
-            # a NEW real object where the specification returns an existing one, or the converse
-            spec_existing = mobj[k] in [x for x in mobj[:k] if x is not None]
-            real_existing = r['obj'] in [x.get('obj') for x in res[:k] if x['out'] == 'conf']
-            clause = 'same-args-different-object' if (spec_existing and not real_existing) else \
-                'differing-args-same-object' if (real_existing and not spec_existing) else 'identity-vs-spec'
-            findings.append((clause, k, f'{W.describe(h)[k]} returns object {r["obj"]}; by the specification (one object per '
-                                        f'normalised argument tuple) it is object {mobj[k]}'))
+        # identity, relationally: which EARLIER calls returned this very object?
+        both = [j for j in range(k) if res[j]['out'] == 'conf' and mobj[j] is not None]
+        same_r = [j for j in both if res[j]['obj'] == r['obj']]
+        same_m = [j for j in both if mobj[j] == mobj[k]]
+        if same_r != same_m:
+            miss = [j for j in same_m if j not in same_r]
+            extra = [j for j in same_r if j not in same_m]
+            if miss:
+                findings.append(('same-normalised-args-different-object', k,
+                                 f'{W.describe(h)[k]} is not the object returned by call #{miss[0]}, although both calls have the '
+                                 f'same arguments after the documented adjustments'))
+            else:
+                findings.append(('differing-args-same-object', k,
+                                 f'{W.describe(h)[k]} is the object returned by call #{extra[0]}, although their arguments differ'))
         robj_key.setdefault(r['obj'], mobj[k])
         if 'encode_error' in r:
             diffs.append({'op': k, 'field': 'encode', 'real': r['encode_error']})
@@ -402,13 +414,23 @@ def judge(W: World, h, real, model):
             findings.append(('hash-disagrees', None, f'objects {i} and {j} compare equal with different hashes'))
     if not real['self_ok']:
         findings.append(('hash-disagrees', None, 'an object is unequal to itself or its hash is unstable'))
+    # a call already convicted on the real outputs alone is not reported a second time against the specification
+    direct = {f[1] for f in findings if not f[0].endswith('-vs-spec') and f[0] not in VS_SPEC}
+    findings = [f for f in findings if not ((f[0].endswith('-vs-spec') or f[0] in VS_SPEC) and f[1] in direct)]
     return findings, diffs
 
 
-def evaluate(W: World, hists: list, uncleared_first=False, batch=40):
+THREAD_STATS = {'rounds': 0, 'bad': []}
+
+
+def evaluate(W: World, hists: list, uncleared_first=False, batch=40, threads=False):
     """run histories on both sides -> list of (history, real, model, findings, diffs)"""
     batches = [hists[i:i + batch] for i in range(0, len(hists), batch)]
-    reals = run_real_batches(batches, W.names, uncleared_first)
+    reals = run_real_batches(batches, W.names, uncleared_first, threads)
+    for ans in reals:
+        if 'threads' in ans:
+            THREAD_STATS['rounds'] += ans['threads']['rounds']
+            THREAD_STATS['bad'] += ans['threads']['bad']
     flat_real, prefixes = [], []
     for b, ans in zip(batches, reals):
         for k, run in enumerate(ans['runs']):
@@ -470,28 +492,81 @@ def canonical_swaps(W: World, h):
     return out
 
 
-def shrink(W: World, h, clause: str):
-    def fires(cands):
-        ev = evaluate(W, cands, batch=max(1, len(cands)))
-        return [any(f[0] == clause for f in e[3]) for e in ev]
-    cur = h
-    for _ in range(40):
-        cands = [drop_op(cur, k) for k in range(len(cur))]
-        for k, op in enumerate(cur):
-            if op[0] == 'new':
-                for j in range(len(op[2])):
-                    cands.append([o if kk != k else ['new', o[1], o[2][:j] + o[2][j + 1:]] for kk, o in enumerate(cur)])
-            if op[1] is not None:
-                cands.append([o if kk != k else [o[0], None, o[2]] for kk, o in enumerate(cur)])
-        cands = [c for c in cands if c]
-        cands += canonical_swaps(W, cur)
-        if not cands:
+def value_transforms(W: World, h):
+    """whole-history value canonicalisation: 0-like -> 1-like of the same type; numeric look-alikes -> int"""
+    P = W.pool
+
+    def find(x):
+        return next((i for i, y in enumerate(P) if type(y) is type(x) and y == x), None)
+    num = (int, float, complex, Decimal, Fraction)
+    t1, t2 = {}, {}
+    for i, x in enumerate(P):
+        if type(x) in num + (bool,) and x == 0:
+            j = find(type(x)(1))
+            if j is not None:
+                t1[i] = j
+        if type(x) in num and type(x) is not int and W.enc[i][0] == 'n':      # an integral look-alike
+            j = find(W.enc[i][2])
+            if j is not None:
+                t2[i] = j
+    out = []
+    for t in (t1, t2):
+        h2 = [[o[0], o[1], [[p[0], t.get(p[1], p[1])] for p in o[2]]] if o[0] == 'new' else o for o in h]
+        if h2 != h:
+            out.append(h2)
+    return out
+
+
+def hsize(h):
+    return (len(h), sum(len(o[2]) for o in h if o[0] == 'new'), sum(1 for o in h if o[1] is not None),
+            sum(p[1] for o in h if o[0] == 'new' for p in o[2]))
+
+
+def candidates(W: World, cur, at):
+    cands = [drop_op(cur, k) for k in range(len(cur))]
+    if at is not None and at < len(cur):
+        # the offending call alone / after one earlier call / the prefix up to it
+        cands += [cur[:at + 1], [cur[at]]] if cur[at][0] == 'new' else [cur[:at + 1]]
+        for j in range(at):
+            if cur[j][0] == 'new':
+                cands.append([cur[j], cur[at]] if cur[at][0] == 'new' else [cur[j], ['again', cur[at][1], 0]])
+    for k, op in enumerate(cur):
+        if op[0] == 'new':
+            for j in range(len(op[2])):
+                cands.append([o if kk != k else ['new', o[1], o[2][:j] + o[2][j + 1:]] for kk, o in enumerate(cur)])
+        if op[1] is not None:
+            cands.append([o if kk != k else [o[0], None, o[2]] for kk, o in enumerate(cur)])
+    cands += canonical_swaps(W, cur) + value_transforms(W, cur)
+    uniq = []
+    for c in sorted((c for c in cands if c), key=hsize):
+        if c not in uniq and hsize(c) < hsize(cur):
+            uniq.append(c)
+    return uniq
+
+
+def shrink_many(W: World, items):
+    """items = [(history, clause, index of the offending call)]; greedy minimisation of all of them in
+    lock-step (one batch of subprocesses + one model run per round); a candidate is kept only if the SAME
+    clause still fails on the real code"""
+    cur = [it[0] for it in items]
+    active = set(range(len(items)))
+    for rnd in range(25):
+        allc, owner = [], []
+        for idx in sorted(active):
+            for c in candidates(W, cur[idx], items[idx][2] if rnd == 0 else None):
+                allc.append(c)
+                owner.append(idx)
+        if not allc:
             break
-        ok = fires(cands)
-        nxt = next((c for c, f in zip(cands, ok) if f), None)
-        if nxt is None:
+        ev = evaluate(W, allc, batch=max(10, -(-len(allc) // 16)))
+        progressed = set()
+        for c, idx, e in zip(allc, owner, ev):
+            if idx not in progressed and any(f[0] == items[idx][1] for f in e[3]):
+                cur[idx] = c          # candidates are sorted by size: the first that fires is the smallest
+                progressed.add(idx)
+        active = progressed
+        if not active:
             break
-        cur = nxt
     return cur
 
 
@@ -521,14 +596,21 @@ def explore(ck: Check, n: int, maxlen: int, seed: int, batch: int = 40) -> Explo
     rng = random.Random(seed)
     hists = corpus(W) + [gen_history(rng, W, maxlen) for _ in range(n)]
     # the first history of every subprocess runs on the table as `import beartype` left it
+    THREAD_STATS.update(rounds=0, bad=[])
     evs = evaluate(W, hists[:len(hists) // 2], uncleared_first=True, batch=batch) + \
-        evaluate(W, hists[len(hists) // 2:], uncleared_first=False, batch=batch)
+        evaluate(W, hists[len(hists) // 2:], uncleared_first=False, batch=batch, threads=True)
+    for kwi in THREAD_STATS['bad'][:1]:
+        hb = [['new', None, kwi]]
+        ex.failures.append(Failure(key=f'C17:threads-different-object:{W.shape(hb)}',
+                                   what=f'8 threads released together calling {W.describe(hb)[0]} did not all get one object',
+                                   replay={'clause': 'threads', 'history': hb, 'history_readable': W.describe(hb)}))
     seen, nontrivial = set(), set()
     outcomes: dict = {}
     clause_hits: dict = {}
     optuse: dict = {}
     catuse: dict = {}
     reported: dict = {}
+    groups: dict = {}
     for h, real, model, findings, diffs in evs:
         ex.evaluations += len(h)
         ex.traces_validated += 1
@@ -555,33 +637,52 @@ def explore(ck: Check, n: int, maxlen: int, seed: int, batch: int = 40) -> Explo
                 nontrivial.add(key)
         for d in diffs:
             ex.corr_diffs.append({'history': W.describe(h), **d})
-        for clause in dict.fromkeys(f[0] for f in findings):
-            clause_hits[clause] = clause_hits.get(clause, 0) + 1
-            if len(reported) >= 10 or sum(1 for kk in reported if kk.split(':')[1] == clause) >= 3:
-                continue
-            hs = shrink(W, h, clause)
-            e = evaluate(W, [hs], batch=1)[0]
+        for f in findings:
+            clause_hits[f[0]] = clause_hits.get(f[0], 0) + 1
+            # group by clause + shape of the offending call; the shortest history of each group is shrunk
+            g = (f[0], W.shape([h[f[1]]]) if f[1] is not None else '')
+            if g not in groups or len(h) < len(groups[g][0]):
+                groups[g] = (h, real, model, findings, diffs)
+    order = sorted(groups.items(), key=lambda kv: (len(kv[1][0]), kv[0]))
+    rank: dict = {}
+    ranked = []
+    for kv in order:
+        rank[kv[0][0]] = rank.get(kv[0][0], 0) + 1
+        ranked.append((rank[kv[0][0]], kv))
+    chosen = []
+    for rk, ((clause, _), (h, real, model, findings, diffs)) in sorted(ranked, key=lambda x: (x[0], x[1][0])):
+        if len(chosen) >= 12 or rk > 4:
+            continue
+        at = next((f[1] for f in findings if f[0] == clause), None)
+        chosen.append((h, clause, at, (h, real, model, findings, diffs)))
+    shrunk = shrink_many(W, [c[:3] for c in chosen]) if chosen else []
+    finals = evaluate(W, shrunk, batch=max(1, len(shrunk))) if shrunk else []
+    for (h, clause, at, orig), hs, e in zip(chosen, shrunk, finals):
+        fs = [f for f in e[3] if f[0] == clause]
+        if not fs:
+            hs, e = h, orig
             fs = [f for f in e[3] if f[0] == clause]
-            if not fs:
-                hs, e = h, (h, real, model, findings, diffs)
-                fs = [f for f in findings if f[0] == clause]
-            fkey = f'C17:{clause}:{W.shape(hs)}'
-            if fkey in reported:
-                continue
-            reported[fkey] = True
-            ex.failures.append(Failure(
-                key=fkey,
-                what=f'history {W.describe(hs)}: {fs[0][2]}',
-                replay={'clause': clause, 'history': hs, 'history_readable': W.describe(hs),
-                        'real': [{k: v for k, v in r.items() if k in ('out', 'obj', 'msg', 'repr')} for r in e[1]['results']],
-                        'isolated': e[1]['isolated'], 'specification': [m[:2] for m in e[2]],
-                        'all_clauses_failing': sorted({f[0] for f in e[3]}), 'unshrunk_history': h}))
+        fkey = f'C17:{clause}:{W.shape(hs)}'
+        if fkey in reported:
+            continue
+        reported[fkey] = True
+        ex.failures.append(Failure(
+            key=fkey,
+            what=f'history {W.describe(hs)}: {fs[0][2]}',
+            replay={'clause': clause, 'history': hs, 'history_readable': W.describe(hs),
+                    'real': [{k: v for k, v in r.items() if k in ('out', 'obj', 'msg', 'repr')} for r in e[1]['results']],
+                    'isolated': e[1]['isolated'], 'specification': [m[:2] for m in e[2]],
+                    'all_clauses_failing': sorted({f[0] for f in e[3]}), 'unshrunk_history': h}))
+    if ck.tier == 'thorough':
+        # source line coverage of the anchored files while ALL histories of this run execute in one process
+        ans = run_real_batches([hists], W.names, False, coverage=True)[0]
+        ex.extra['source_line_coverage'] = ans.get('coverage')
     ex.distinct_nontrivial = len(nontrivial)
     ex.samples = [{'history': W.describe(h)} for h in hists[len(corpus(W)):len(corpus(W)) + 3]]
     ex.extra.update({'outcome_distribution': outcomes, 'distinct_histories': len(seen), 'options_passed': optuse,
                      'value_categories_passed': catuse, 'clauses_failing_histories': clause_hits,
                      'corpus_histories': len(corpus(W)), 'subprocesses': -(-len(hists) // batch),
-                     'extracted_options': len(W.names), 'hashability_validated_in_source': W.tb['hash_check']})
+                     'thread_bursts_8x': THREAD_STATS['rounds'], 'extracted_options': len(W.names), 'hashability_validated_in_source': W.tb['hash_check']})
     return ex
 
 
@@ -596,6 +697,12 @@ def _hashable(x) -> bool:
 def replay(data: dict) -> int:
     W = load_world()
     h = data['history']
+    if data.get('clause') == 'threads':
+        THREAD_STATS.update(rounds=0, bad=[])
+        for _ in range(20):
+            evaluate(W, [h], batch=1, threads=True)
+        print(f'thread bursts: {THREAD_STATS["rounds"]}, with different objects: {len(THREAD_STATS["bad"])}')
+        return 1 if THREAD_STATS['bad'] else 0
     e = evaluate(W, [h], batch=1)[0]
     print('history:')
     for line in W.describe(h):
@@ -620,7 +727,7 @@ def main(ck: Check) -> int:
     except xconf.ExtractError as e:
         xerr = e
     proof = ck.prove(MODULE, PROP_FILE)
-    ex = explore(ck, n=1500 if quick else 24000, maxlen=9, seed=ck.seed)
+    ex = explore(ck, n=1000 if quick else 24000, maxlen=9, seed=ck.seed)
     ck.decide(proof, ex, deep_search=lambda: explore(ck, n=12000, maxlen=10, seed=ck.seed + 1000))
     ck.evidence(proof, ex,
                 level_note='proved for every well-formed option table, every finite history and every keyword dictionary (Lean); the '
